@@ -518,3 +518,107 @@ func eqStr(a, b string) string {
 	}
 	return "eq(" + a + ", " + b + ")"
 }
+
+// checkRingResetAndOldest: the ring facts that "the earliest frame since start-up or the last reset" (C07 K5,
+// C09 F5) rests on: Reset puts the mark on slot 0 with position 0 and the wrapped flag cleared, Oldest returns
+// the marked slot while marked and otherwise the slot about to be overwritten, SetAsOldest marks the position.
+func checkRingResetAndOldest(w *World, r *Report, rule string) {
+	ri, err := resolveRing(w)
+	if err != nil {
+		r.Unknown(rule, "motion.FrameLoop", "-", err.Error())
+		return
+	}
+	e := newTermEnv(w)
+	stores := func(fn *ssa.Function) (map[int]string, []*Path) {
+		paths, _ := enumPaths(e, fn, 16)
+		out := map[int]string{}
+		for _, p := range paths {
+			for _, in := range p.Instrs {
+				if st, ok := in.(*ssa.Store); ok {
+					if fa, ok := st.Addr.(*ssa.FieldAddr); ok && isPtrTo(fa.X.Type(), ri.T) {
+						out[fa.Field] = p.Term(e, st.Val).String()
+					}
+				}
+			}
+		}
+		return out, paths
+	}
+	rs, rp := stores(ri.methods["Reset"])
+	r.Check(len(rp) == 1 && rs[ri.fCUR] == "0" && rs[ri.fOLD] == "0" && rs[ri.fFULL] == "false", rule, "ring Reset: position <- 0, mark <- slot 0, wrapped <- false (history restarts at the first frame after the reset)", w.Pos(ri.methods["Reset"].Pos()),
+		fmt.Sprintf("position <- %s ; mark <- %s ; wrapped <- %s", rs[ri.fCUR], rs[ri.fOLD], rs[ri.fFULL]))
+	ss, sp := stores(ri.methods["SetAsOldest"])
+	r.Check(len(sp) == 1 && len(ss) == 1 && ss[ri.fOLD] == ri.CUR, rule, "ring SetAsOldest: mark <- position", w.Pos(ri.methods["SetAsOldest"].Pos()), ss[ri.fOLD])
+	next := "rem((" + ri.CUR + " + 1), " + ri.N + ")"
+	_, op := stores(ri.methods["Oldest"])
+	okO := len(op) == 2
+	for _, p := range op {
+		ret := p.Term(e, p.Ret.Results[0]).String()
+		if hasGuard(p.Conds, "ne(-1, "+ri.OLD+")") {
+			okO = okO && ret == "index("+ri.FR+", "+ri.OLD+")"
+		} else {
+			okO = okO && ret == "index("+ri.FR+", "+next+")"
+		}
+	}
+	r.Check(okO, rule, "ring Oldest: the marked slot while marked, otherwise the slot about to be overwritten", w.Pos(ri.methods["Oldest"].Pos()), "")
+}
+
+// checkRingHistoryForms: the ring facts C01/C02 assume: GetHistory returns the full history when unmarked and
+// otherwise its last ((position-mark+n) % n)+1 frames; the full history is the rotation that ends at the position.
+func checkRingHistoryForms(w *World, r *Report, rule string) {
+	ri, err := resolveRing(w)
+	if err != nil {
+		r.Unknown(rule, "motion.FrameLoop", "-", err.Error())
+		return
+	}
+	e := newTermEnv(w)
+	N, CUR, OLD, FULL, FR, ORD := ri.N, ri.CUR, ri.OLD, ri.FULL, ri.FR, ri.ORD
+	next := "rem((" + CUR + " + 1), " + N + ")"
+	H := "motion.FrameLoop." + ri.full.Name() + "(recv:motion.FrameLoop)"
+	paths, complete := enumPaths(e, ri.methods["GetHistory"], 16)
+	okH := complete && len(paths) == 2
+	var got []string
+	for _, p := range paths {
+		ret := p.Term(e, p.Ret.Results[0]).String()
+		got = append(got, "["+strings.Join(guardStrings(p.Conds), " ∧ ")+"] => "+ret)
+		hl := "rem((-1*" + OLD + " + " + CUR + " + " + N + "), " + N + ")"
+		want := "slice(" + H + ", (-1*" + hl + " + len(" + H + ") + -1), len(" + H + "))"
+		if containsStr(guardStrings(p.Conds), "eq(-1, "+OLD+")") {
+			want = H
+		}
+		if ret != want || len(p.Conds) != 1 {
+			okH = false
+		}
+	}
+	r.Check(okH, rule, "ring GetHistory: full history when unmarked, else its last ((position-mark+n) % n)+1 frames — bounded by the mark in every ring phase", w.Pos(ri.methods["GetHistory"].Pos()), strings.Join(got, " | "))
+	fp, fcomplete := enumPaths(e, ri.full, 16)
+	okF := fcomplete && len(fp) == 3
+	var fgot []string
+	for _, p := range fp {
+		var copies []string
+		for _, in := range p.Instrs {
+			if c, ok := in.(*ssa.Call); ok {
+				if bi, ok := c.Call.Value.(*ssa.Builtin); ok && bi.Name() == "copy" {
+					copies = append(copies, p.Term(e, c.Call.Args[0]).String()+" <= "+p.Term(e, c.Call.Args[1]).String())
+				}
+			}
+		}
+		ret := p.Term(e, p.Ret.Results[0]).String()
+		conds := guardStrings(p.Conds)
+		var wantCopies []string
+		var wantRet string
+		switch {
+		case containsStr(conds, eqStr("("+N+" + -1)", CUR)):
+			wantCopies, wantRet = []string{"slice(" + ORD + ", 0, len(" + ORD + ")) <= slice(" + FR + ", 0, len(" + FR + "))"}, ORD
+		case !containsStr(conds, FULL):
+			wantCopies, wantRet = []string{ORD + " <= slice(" + FR + ", 0, " + next + ")"}, "slice("+ORD+", 0, "+next+")"
+		default:
+			wantCopies = []string{ORD + " <= slice(" + FR + ", " + next + ", len(" + FR + "))", "slice(" + ORD + ", (-1*" + next + " + " + N + "), len(" + ORD + ")) <= slice(" + FR + ", 0, " + next + ")"}
+			wantRet = ORD
+		}
+		fgot = append(fgot, strings.Join(copies, " ; ")+" => "+ret)
+		if strings.Join(copies, " | ") != strings.Join(wantCopies, " | ") || ret != wantRet {
+			okF = false
+		}
+	}
+	r.Check(okF, rule, "ring full history: frames[0..position] before the first wrap, else the rotation frames[position+1..] ++ frames[..position]", w.Pos(ri.full.Pos()), strings.Join(fgot, " | "))
+}
